@@ -3,9 +3,9 @@ package fsm
 import (
 	"errors"
 	"fmt"
-	"strings"
 	"math/rand/v2"
 	"sort"
+	"strings"
 	"sync"
 	"sync/atomic"
 	"testing"
@@ -186,7 +186,11 @@ var c10FixedDelays = map[string]time.Duration{"dial.done": 20 * time.Nanosecond}
 func c10World(t *testing.T, p c10Params, instants *[]int64) rt.Result {
 	sc := c10Find(p.Script)
 	ceaseChecked := 0
-	out := hz.Run(t, hz.Opts{Seed: p.Seed, HookMode: p.Hook, HookDelays: c10FixedDelays}, func(w *hz.World) {
+	extra := 0
+	if p.Stop == "ListenerFail" && p.Seed%2 == 1 {
+		extra = 2 // three listeners failing at the same instant
+	}
+	out := hz.Run(t, hz.Opts{Seed: p.Seed, HookMode: p.Hook, HookDelays: c10FixedDelays, ExtraListeners: extra}, func(w *hz.World) {
 		x := &c10Ctx{w: w, ps: hz.StdPeer("10.0.1.1")}
 		x.ps.Hold = 90
 		sc.setup(x)
@@ -268,6 +272,9 @@ func c10World(t *testing.T, p c10Params, instants *[]int64) rt.Result {
 		case "ListenerFail":
 			// the listener fails: Serve must stop every peer as on Close and return that error
 			w.Lis.Fail(errors.New("injected accept failure"))
+			for k, l := range w.Extra {
+				l.Fail(fmt.Errorf("injected accept failure on extra listener %d", k))
+			}
 			for i := 0; i < 5; i++ {
 				if ret, _ := w.ServeResult(); ret {
 					break
